@@ -312,7 +312,7 @@ def main(tier):
         ck.extra["code_reached"] = {k: v for k, v in o["reached"].items() if k.startswith("jaxley")}
     for can, oc in zip(CANARIES, outs[1:]):
         ref = oc[0] == "ok" and not oc[1]["error"] and any(r["status"] != "proved" for r in oc[1]["results"])
-        ck.canaries.append((f"{can[0]}: {can[2][:50]!r} -> {can[3][:50]!r}", ref))
+        ck.canary(f"{can[0]}: {can[2][:50]!r} -> {can[3][:50]!r}", ref, oc)
     for f in ("jaxley.modules.base.Module.get_all_parameters", "jaxley.modules.base.Module.get_all_states", "jaxley.modules.base.Module.to_jax", "jaxley.utils.cell_utils.params_to_pstate"):
         ck.add_function(f, "body discharged" if not ck.violations else "body NOT discharged")
     for f in ("jaxley.modules.base.Module.set", "jaxley.modules.base.Module.data_set", "jaxley.modules.base.Module.make_trainable", "jaxley.modules.base.Module.write_trainables"):
